@@ -757,6 +757,45 @@ theorem commitMkdir_fold (buffer : Node) (l : List Bytes) (r : Node) (n : Nat) (
       simp only [mkS, if_neg hd, Option.bind_some]
       exact ih r n hr
 
+theorem remoteStream_none (r : Node) (hr : Inv r) (n : Nat) (src : Bytes) (cs : List Bytes) (W : List Name)
+    (hn : norm src = some W) :
+    (FS.writeOk (abs r) W → remoteStream none n src cs r = (((Root.writer r src cs).1, .ok), n + cs.length + 2)
+        ∧ (Root.writer r src cs).2 = .ok)
+    ∧ (¬ FS.writeOk (abs r) W → remoteStream none n src cs r = ((r, .err), n + 1)) := by
+  have h0 := root_writer r hr src [] W hn
+  have hc := root_writer r hr src cs W hn
+  constructor
+  · intro hok
+    have r0 : (Root.writer r src []).2 = .ok := by
+      rcases h0.1 with ⟨_, b, _⟩ | ⟨a, _, _⟩
+      · exact b
+      · exact absurd hok a
+    have rc : (Root.writer r src cs).2 = .ok := by
+      rcases hc.1 with ⟨_, b, _⟩ | ⟨a, _, _⟩
+      · exact b
+      · exact absurd hok a
+    refine ⟨?_, rc⟩
+    unfold remoteStream
+    have e0 : Root.writer r src [] = ((Root.writer r src []).1, .ok) := by rw [← r0]
+    have ec : Root.writer r src cs = ((Root.writer r src cs).1, .ok) := by rw [← rc]
+    simp only [reduceCtorEq, if_false]
+    rw [e0]
+    simp only []
+    rw [ec]
+  · intro hno
+    have r0 : (Root.writer r src []).2 = .err := by
+      rcases h0.1 with ⟨a, _, _⟩ | ⟨_, b, _⟩
+      · exact absurd a hno
+      · exact b
+    have hsame := h0.2.2 r0
+    unfold remoteStream
+    simp only [reduceCtorEq, if_false]
+    rcases hw : Root.writer r src [] with ⟨r', res⟩
+    rw [hw] at r0 hsame
+    simp only [] at r0 hsame
+    subst r0 hsame
+    rfl
+
 theorem commitWrite_fold (buffer : Node) (l : List Bytes) (r : Node) (n : Nat) (hr : Inv r) :
     Refines (commitWrite none buffer l r n) (foldK (l.map (wrS buffer)) (abs r)) := by
   induction l generalizing r n with
@@ -796,28 +835,19 @@ theorem commitWrite_fold (buffer : Node) (l : List Bytes) (r : Node) (n : Nat) (
           | data d =>
             simp only []
             have hw2 := root_writer r1 hinv src (ioChunks d) W hn
+            have hrs := remoteStream_none r1 hinv (n + 1) src (ioChunks d) W hn
             by_cases hok2 : FS.writeOk (abs r1) W
-            · obtain ⟨hres2, hst2⟩ : (Root.writer r1 src (ioChunks d)).2 = .ok
-                  ∧ abs (Root.writer r1 src (ioChunks d)).1 = FS.writeSt (abs r1) W d := by
-                rcases hw2.1 with ⟨_, b, c⟩ | ⟨a, _, _⟩
-                · exact ⟨b, by rw [c, ioChunks_flatten]⟩
+            · obtain ⟨es, hres2⟩ := hrs.1 hok2
+              have hst2 : abs (Root.writer r1 src (ioChunks d)).1 = FS.writeSt (abs r1) W d := by
+                rcases hw2.1 with ⟨_, _, c⟩ | ⟨a, _, _⟩
+                · rw [c, ioChunks_flatten]
                 · exact absurd hok2 a
               have hinv2 : Inv (Root.writer r1 src (ioChunks d)).1 := hw2.2.1.inv hinv (Path.norm_plain src W hn)
-              have e2 : Root.writer r1 src (ioChunks d) = ((Root.writer r1 src (ioChunks d)).1, .ok) := by
-                rw [← hres2]
-              rw [e2]
+              rw [es]
               simp only [pWr, if_pos hok2, Option.bind_some]
               rw [← hst2]
-              exact ih _ (n + 2) hinv2
-            · have hres2 : (Root.writer r1 src (ioChunks d)).2 = .err := by
-                rcases hw2.1 with ⟨a, _, _⟩ | ⟨_, b, _⟩
-                · exact absurd a hok2
-                · exact b
-              have hsame := hw2.2.2 hres2
-              rcases hc : Root.writer r1 src (ioChunks d) with ⟨r', res⟩
-              rw [hc] at hres2 hsame
-              simp only [] at hres2 hsame
-              subst hres2 hsame
+              exact ih _ _ hinv2
+            · rw [hrs.2 hok2]
               simp only [pWr, if_neg hok2, Option.bind_none]
               exact ⟨hinv, rfl⟩
           | _ => simp only [Option.bind_none]; exact ⟨hinv, rfl⟩
